@@ -91,6 +91,21 @@ def random_program(r, i: int) -> dict:
         layer = r.choice(layers)
         prog["extra"][layer] = g.tree_merge(prog["extra"][layer],
                                             g.node(metadata=g.node(annotations=g.node(note=g.leaf("n")))))
+    if r.random() < 0.15:   # a create.overlay that writes metadata / metadata.ownerReferences (a co-owner, a whole
+        # metadata map computed from inputs): the parent's reference must still be there after it
+        how = r.choice(("co-owner", "co-owner-via-input", "metadata-from-input", "metadata-from-input-with-owners"))
+        if how == "co-owner":
+            t = g.node(metadata=g.node(ownerReferences=g.leaf([copy.deepcopy(g.THIRD_REF)])))
+        elif how == "co-owner-via-input":
+            t = g.node(metadata=g.node(ownerReferences=g.leaf([copy.deepcopy(g.OTHER_REF)], via=True)))
+        elif how == "metadata-from-input":
+            t = g.node(metadata=g.leaf({"labels": {"set-by": "create"}}, via=True))
+        else:
+            t = g.node(metadata=g.leaf({"labels": {"set-by": "create"},
+                                        "ownerReferences": [copy.deepcopy(g.THIRD_REF)]}, via=True))
+        base = prog["extra"].get("create") or g.node(spec=g.node(onCreate=g.leaf(True)))
+        prog["extra"]["create"] = g.tree_merge(base, t)
+        prog["createTouchesMetadata"] = how
     if r.random() < 0.1:
         prog["skip"] = [l for l in layers if l in ("ov0", "ov1", "ovRef")][:1]
     return prog
@@ -350,6 +365,10 @@ def examine(ck: Check, prog: dict, b: dict, ans, label: str):
         ck.disagree({"prog": prog}, "prepared", obs["prepare"], "program does not prepare")
         return
     mine = impl_request(obs)
+    for layer in prog.get("extra", {}):
+        ck.count(f"content-in-layer:{layer}")
+    if prog.get("createTouchesMetadata"):
+        ck.count("create-overlay-writes:" + prog["createTouchesMetadata"])
     if target_specifies_owner_refs(prog):
         ck.count("target-lists-owners:" + ("live-present" if prog.get("stored") is not None else "absent"))
     want = model_request(ans, b, prog)
@@ -440,7 +459,7 @@ def run(tier: str) -> int:
              "the first pass created — drifted or matching) whose ownerReferences are absent | [] | null | [other] | "
              "[other,third] | [parent] | [other,parent,third] | [a reference with the parent's apiVersion/kind/name but "
              "another uid] | [other, that]; lists nested directly in lists (1-3 levels) with directive-bearing maps "
-             "inside; ~12% of targets list owners themselves (the former F7 class, "
+             "inside; ~15% of create overlays write metadata.ownerReferences (a co-owner) or a whole metadata map from inputs; ~12% of targets list owners themselves (the former F7 class, "
              "whose witness corpus/C08/target_owner_refs.json is replayed first), ~3% "
              "have unusable annotations; non-trivial = the target carries directive keys and a POST or PATCH was sent; "
              "distinct by layer contents+scope+template form+live variant+method",
